@@ -215,6 +215,25 @@ def _alter_tx(tx, which, a):
     return tx, f
 
 
+class _ForwardOnly:
+    """a binary stream offering read() only"""
+
+    def __init__(self, data):
+        self._f = io.BytesIO(data)
+
+    def read(self, n=-1):
+        return self._f.read(n)
+
+    def seekable(self):
+        return False
+
+    def seek(self, *a):
+        raise io.UnsupportedOperation("seek")
+
+    def tell(self):
+        raise io.UnsupportedOperation("tell")
+
+
 def o_block(case):
     net = NETS[case["net"]]
     Block = net.block
@@ -252,6 +271,11 @@ def o_block(case):
         b3 = net.message.parse("block", raw)["block"]
         if b3.as_bin() != raw:
             _bad("block:message-parse", "message.parse('block') does not round trip")
+        # the same block read from a stream that only goes forward (a socket file, a pipe), two blocks back to back
+        fwd = _ForwardOnly(raw + raw)
+        for k in range(2):
+            if Block.parse(fwd).as_bin() != raw:
+                _bad("block:parse-forward-only-stream", "block %d parsed from a forward-only stream does not re-serialise to its bytes" % k)
         return labels + ["honest"]
     kind, a, c = alt
     blobs = [ser(t) for t in txs]
